@@ -83,7 +83,7 @@ def scripts_for(ctx, quick):
     S += g("g2.cfg", opcodes=tset([0, 4, 5]), maxrecs=0, edns=tset(["off", "v0", "do", "opts", "v1"]),
            rcodes=tset([0, 1, 15, 16, 2561, 4095]), bits=tset([0, 256, 33920, 34736, 560]))
     # G3: dynamic updates: every RFC 2136 form
-    S += g("g3.cfg", opcodes=tset([5]), names=tset([2, 4]), targets=tset([4]), kinds=tset(["A", "NS"]))
+    S += g("g3.cfg", opcodes=tset([5]), names=tset([2, 4]), targets=tset([4]), kinds=tset(["A"] if quick else ["A", "NS"]))
     # G4: rendering relative to an origin
     S += g("g4.cfg", opcodes=tset([0, 5]), names=tset([2, 4, 5]), targets=tset([2, 5]), kinds=tset(["NS"]),
            origins=tset([True]), forms=tset(["add", "rrset-exists", "del-rr"]))
@@ -92,7 +92,7 @@ def scripts_for(ctx, quick):
     if not quick:
         S += g("g5.cfg", maxrecs=3, names=tset([2, 3, 4]), kinds=tset(["A", "NS"]), edns=tset(["do"]))
     # G6: long random messages over the whole universe
-    n = 400 if quick else 15000
+    n = 300 if quick else 15000
     S += ctx.generate("Gen_Renderer", gen_cfg(
         ctx, "g6.cfg", opcodes=tset([0, 4, 5]), maxrecs=6, names=tset([1, 2, 3, 4, 5, 6]), targets=tset([2, 3, 4, 5]),
         kinds=tset(["A", "NS", "RRSIG", "SOA", "SRV", "TXT"]), edns=tset(["off", "v0", "do", "opts", "v1"]),
